@@ -8,6 +8,7 @@ import (
 	"errors"
 	"fmt"
 	"io"
+	"math"
 	"mime"
 	"mime/multipart"
 	"net/http"
@@ -1201,6 +1202,10 @@ func parsePrimitiveCase(raw string, schema *openapi3.SchemaRef, typ string) (any
 		v, err := strconv.ParseFloat(raw, 64)
 		if err != nil {
 			return nil, &ParseError{Kind: KindInvalidFormat, Value: raw, Reason: "an invalid " + typ, Cause: err.(*strconv.NumError).Err}
+		}
+		if math.IsNaN(v) || math.IsInf(v, 0) {
+			// ParseFloat reads "NaN", "Inf", "infinity": not numbers of the JSON data model
+			return nil, &ParseError{Kind: KindInvalidFormat, Value: raw, Reason: "an invalid " + typ, Cause: strconv.ErrSyntax}
 		}
 		return v, nil
 	case "boolean":
